@@ -406,6 +406,21 @@ Rename(st, old, new) ==
             ELSE [l1 EXCEPT !.refs = SubstRefs(l1.refs, old, new)]]])}
       \cup (IF st.orph THEN {Fail(st, "NotUniqueError")} ELSE {})   \* an orphan placeholder may carry the name
 
+\* renaming to something that is not an ordinary identifier (class decided from the text by the
+\* harness: 1 = the placeholder "*", 2 = not an identifier at all: empty or with a blank).
+\* An identifier that the grammar requires (S, P) cannot be removed; an optional one (E, G, O, U)
+\* can, unless other lines refer to the line by it.  A refusal changes nothing.
+RenameSpecial(st, old, new, cls) ==
+  LET tgt == IdxNamed(st, old) IN
+  IF tgt = {} THEN {Fail(st, "NotFoundError"), Fail(st, "Error")}
+  ELSE LET i == CHOOSE i \in tgt : TRUE
+           t == st.lines[i] IN
+    IF t.rt \in {"L", "C"} THEN {Unmodelled(st)}               \* the ID tag is a string tag: anything printable goes
+    ELSE IF t.rt = "S" /\ st.ver = "gfa2" /\ cls = 1 THEN {Unmodelled(st)}   \* "*" matches the GFA2 identifier syntax
+    ELSE IF cls = 2 \/ t.rt \in {"S", "P"} THEN {Fail(st, "Error")}
+    ELSE IF \E j \in DOMAIN st.lines : j # i /\ old \in Mentions(st.lines[j]) THEN {Fail(st, "Error")}
+    ELSE {Ok([st EXCEPT !.lines[i].name = "*"])}
+
 \* --- explicit validation of the Gfa: references resolved; rGFA dialect rules -------
 HasTag(l, n, t) == \E i \in DOMAIN l.tagn : l.tagn[i] = n /\ l.tagt[i] = t
 RgfaSegOK(l) == HasTag(l, "SN", "Z") /\ HasTag(l, "SO", "i") /\ HasTag(l, "SR", "i")
@@ -505,7 +520,7 @@ Step(st, op) ==
     [] op.k = "flush" -> ProcessQueue(st)
     [] op.k = "rm"    -> Rm(st, op.id)
     [] op.k = "disc"  -> Disc(st, op.l)
-    [] op.k = "ren"   -> Rename(st, op.id, op.id2)
+    [] op.k = "ren"   -> IF op.n = 0 THEN Rename(st, op.id, op.id2) ELSE RenameSpecial(st, op.id, op.id2, op.n)
     [] OTHER -> {Fail(st, "unmodelled")}
 
 -----------------------------------------------------------------------------
